@@ -35,6 +35,9 @@ type flushCase struct {
 	// returned from the transport Write (it finishes only once the target is
 	// executing)
 	Reuse bool `json:"reuse,omitempty"`
+	// ReuseFlush: as Reuse, but the earlier request with that tag was a Tflush (of
+	// an idle tag): a flush's own tag is free again as soon as its Rflush is out
+	ReuseFlush bool `json:"reuse_flush,omitempty"`
 }
 
 const (
@@ -102,13 +105,17 @@ func runFlushCase(c flushCase, st *flushStats) *fail {
 	if c.Reuse && c.Target != "rename-release" {
 		// an earlier request with the target's tag: its reply (header and body: two
 		// Writes) is delivered, the writing goroutine is paused inside the second
-		entered, resume := p.s.S2C.PauseAfterWriteAt(p.s.S2C.Writes() + 2)
+		nw, earlier := 2, tStatfs(0)
+		if c.ReuseFlush {
+			nw, earlier = 1, tFlush(0x7B7B) // an Rflush has no body: one Write
+		}
+		entered, resume := p.s.S2C.PauseAfterWriteAt(p.s.S2C.Writes() + nw)
 		defer resume()
-		p.s.Send(refcodec.Encode(withTag(tStatfs(0), tagTarget)))
+		p.s.Send(refcodec.Encode(withTag(earlier, tagTarget)))
 		select {
 		case <-entered:
 		case <-time.After(20 * time.Second):
-			return failf("harness-reuse", "HARNESS-ERROR the earlier reply was not written in two Writes")
+			return failf("harness-reuse", "HARNESS-ERROR the earlier reply was not written in %d Writes", nw)
 		}
 		if ok, f := p.waitFor(tagTarget, 1, 20*time.Second); f != nil || !ok {
 			return failf("harness-reuse", "HARNESS-ERROR the earlier reply did not arrive (%v)", f)
@@ -534,6 +541,7 @@ func genFlushCase(rt *rapid.T) flushCase {
 		c.FlushTags = append(c.FlushTags, rapid.SampledFrom([]uint16{0, 0xffff, 1, 2, 0xfffe, 0x8000, 70}).Draw(rt, "ftag"))
 	}
 	c.Reuse = rapid.IntRange(0, 3).Draw(rt, "reuse") == 0
+	c.ReuseFlush = c.Reuse && rapid.Bool().Draw(rt, "reuseflush")
 	n := rapid.IntRange(1, 8).Draw(rt, "nev")
 	nf := 0
 	rel := false
